@@ -97,6 +97,9 @@ func (e *c10Env) throw(pos string) {
 		panic(st)
 	case "badstringer":
 		panic(&c10Stringer{bad: true})
+	case "serviceerror":
+		// a value of the framework's own error type (a re-panicked routing or entity error): still a panic
+		panic(restful.NewError(409, "injected:"+pos))
 	}
 	panic(&c10Panic{e.curLog, pos})
 }
@@ -124,6 +127,9 @@ func (e *c10Env) sameValue(v interface{}, pos string) bool {
 	case "badstringer":
 		st, ok := v.(*c10Stringer)
 		return ok && st != nil && st.bad
+	case "serviceerror":
+		se, ok := v.(restful.ServiceError)
+		return ok && se.Code == 409 && se.Message == "injected:"+pos
 	}
 	pv, ok := v.(*c10Panic)
 	return ok && pv.id == pos
@@ -312,10 +318,11 @@ var c10Stop bool
 func c10(ctx *core.Ctx) {
 	quietLogs()
 	c10Stop = false
-	ctx.Rule("crash points enumerated completely: panic in each of 2 container / 2 service / 2 route filters before and after passing control, in the handler before / between / after its writes and inside ReadEntity (a gzip-declared request body whose Read panics), in an If-condition, and (routing-failure request) in container filters and the custom error handler; x recovery {on, off} x coding {none, gzip, deflate} (container switch or route override) x provider {sync.Pool, bounded(1), custom} x entry {Dispatch, ServeHTTP} x filters writing output or not x custom (answers 503 with a header of its own) / default recover handler x panic value kind {pointer, string, error, runtime error, http.ErrAbortHandler, typed-nil error, typed-nil Stringer, Stringer whose String panics} (value kinds on the sync.Pool / no-marker slice). Monitors: recover() around the entry, recording RecoverHandler, compressor ledger, probe requests replayed after every panic, Add+Remove afterwards (needs the write lock). Then sequences of 20 mixed panicking/normal requests per container. Non-trivial = every crash case; distinct by the full cell.")
+	ctx.Rule("crash points enumerated completely: panic in each of 2 container / 2 service / 2 route filters before and after passing control, in the handler before / between / after its writes and inside ReadEntity (a gzip-declared request body whose Read panics), in an If-condition, and (routing-failure request) in container filters and the custom error handler; x recovery {on, off} x coding {none, gzip, deflate} (container switch or route override) x provider {sync.Pool, bounded(1), custom} x entry {Dispatch, ServeHTTP} x filters writing output or not x custom (answers 503 with a header of its own) / default recover handler x panic value kind {pointer, string, error, runtime error, http.ErrAbortHandler, typed-nil error, typed-nil Stringer, Stringer whose String panics, restful.ServiceError by value}; the obsolete package variable restful.DoNotRecover set in every 7th case (value kinds on the sync.Pool / no-marker slice). Monitors: recover() around the entry, recording RecoverHandler, compressor ledger, probe requests replayed after every panic, Add+Remove afterwards (needs the write lock). Then sequences of 20 mixed panicking/normal requests per container. Non-trivial = every crash case; distinct by the full cell.")
 	ctx.Assume("HandleWithFilter is excluded: the property speaks of routed dispatch",
 		"panic values are pointers so that 'the same value' is decided by identity")
 	defer func() {
+		restful.DoNotRecover = false
 		if !c10Stop {
 			restful.SetCompressorProvider(restful.NewSyncPoolCompessors())
 		}
@@ -340,7 +347,7 @@ func c10(ctx *core.Ctx) {
 										}
 										kinds := []string{"ptr"}
 										if !mk && prov == "syncpool" {
-											kinds = []string{"ptr", "string", "error", "runtime", "abort", "nilerr", "nilstringer", "badstringer"}
+											kinds = []string{"ptr", "string", "error", "runtime", "abort", "nilerr", "nilstringer", "badstringer", "serviceerror"}
 										}
 										for _, kind := range kinds {
 											cases = append(cases, c10Case{Pos: p, Routed: routed, Recovery: rec, Coding: cod, Provider: prov, Entry: entry, Markers: mk, CustomRec: cr, RouteEnc: re, Value: kind})
@@ -362,6 +369,9 @@ func c10(ctx *core.Ctx) {
 		}
 		k := &cases[ci]
 		k.Cancelled = ci%4 == 3
+		// the obsolete package-level switch of the package-level container is set by somebody else in the process: an own
+		// container follows its own DoNotRecover setting
+		restful.DoNotRecover = ci%7 == 3
 		if ci%50 == 0 || ctx.OnlyCase >= 0 {
 			ctx.Case(ci, core.JSON(k))
 		}
